@@ -600,7 +600,7 @@ def main_check(module, argv=None):
         known = load_known_findings(pid)
         result = module.run(ctx, replay=json.load(open(args.replay)) if args.replay else None,
                             proofs_ok=broken_proof is None)
-        for f in gen_failures + result.get("failures", []):
+        for f in result.get("failures", []) + gen_failures:   # concrete inputs first, broken ties after them
             kf = None
             for k in known:
                 if k.get("status") == "open" and hasattr(module, "matches_known") and module.matches_known(k, f):
